@@ -2,7 +2,8 @@
 //! the inherent `try_finish` of each BGZF-backed writer and flush the raw sink themselves):
 //!
 //! * `trait`   — only the calls of `sam::alignment::io::Write`: `write_alignment_header`, `write_alignment_record`…,
-//!               `finish(&header)` ("shuts down an alignment writer"), then the writer is dropped (Bam, SamGz, Cram);
+//!               `finish(&header)` ("shuts down an alignment writer"), then the writer is dropped (Bam, BamRaw, Sam,
+//!               SamGz, Cram);
 //! * `util`    — `noodles_util::alignment::io::Writer` (`write_header`, `write_record`…, `finish(&header)`, drop) for
 //!               Sam / SamGz / Bam / BamRaw / Cram and `noodles_util::variant::io::Writer` (`write_header`,
 //!               `write_record`…, drop — it has no finishing call) for Vcf / VcfGz / Bcf / BcfRaw;
@@ -48,7 +49,7 @@ fn unsupported() -> io::Error {
 }
 
 pub fn has_trait_history(kind: Kind) -> bool {
-    matches!(kind, Kind::Bam | Kind::SamGz | Kind::Cram)
+    matches!(kind, Kind::Bam | Kind::BamRaw | Kind::Sam | Kind::SamGz | Kind::Cram)
 }
 
 pub fn has_util_history(kind: Kind) -> bool {
@@ -77,6 +78,8 @@ pub fn trait_history<W: Write>(p: &Prepared, sink: W) -> io::Result<()> {
     let Model::Alignment { header, records } = &p.model else { return Err(unsupported()) };
     match p.kind {
         Kind::Bam => run_alignment_trait(bam::io::Writer::new(sink), header, records),
+        Kind::BamRaw => run_alignment_trait(bam::io::Writer::from(sink), header, records),
+        Kind::Sam => run_alignment_trait(sam::io::Writer::new(sink), header, records),
         Kind::SamGz => run_alignment_trait(sam::io::Writer::new(bgzf::io::Writer::new(sink)), header, records),
         Kind::Cram => {
             let mut b = noodles_cram::io::writer::Builder::default().set_reference_sequence_repository(p.repository.clone());
